@@ -107,7 +107,11 @@ def run_job(job):
             sp.parent_name = prev
             prev = sp.name
             names.append(sp.name)
-    descs = job.get('descs') or [render.spec(sp, altf, **layout) for sp in specs]
+    if job.get('layouts'):
+        # one layout per module of the chain
+        descs = [render.spec(sp, altf, **lay) for sp, lay in zip(specs, job['layouts'])]
+    else:
+        descs = job.get('descs') or [render.spec(sp, altf, **layout) for sp in specs]
     mods = []
     tag = job.get('tag', '')
     try:
